@@ -5,7 +5,7 @@
    parent / child pointers, n_keys, the root pointer and the root lock must be the enabled step of the model for that thread, with
    the same value.  Loads of a thread that holds a lock are stuttering unless they are one of the model's load steps; accesses to
    objects that are still private to their creator (B3 before it is linked, P2 before the root pointer is stored) are stuttering;
-   re-validation under the lock without a shared write is a silent model step.
+   re-validation under the lock without a shared write and the scan's private bookkeeping (SEnter, SRec, SRet) are silent model steps.
    The first line carries the programs; runs are separated by reset events that carry the complete initial content. *)
 EXTENDS YkConc4, Json, IOUtils
 Log == ndJsonDeserialize(IOEnv.TRACE)
@@ -19,7 +19,8 @@ LVer(e) == LV(e.ver)
 Consume == l <= Len(Log) /\ l' = l + 1
 Stutter == UNCHANGED vars
 Ev(b) == b = TRUE
-Reading(t) == pc[t] \in {"start", "g0", "fb", "gc1", "gc2", "gc3", "gc4", "lv1", "permld", "lv2", "g_val", "g_fc", "r_fc0", "lock", "done"}
+Reading(t) == pc[t] \in {"start", "g0", "fb", "gc1", "gc2", "gc3", "gc4", "lv1", "permld", "lv2", "g_val", "g_fc", "r_fc0", "lock", "done",
+                          "s_enter", "s_ret", "s_next", "s_perm", "s_val", "s_chk", "s_rec", "s_nv", "s_fin"}
 Owner(t) == ~Reading(t)
 \* objects nobody else can see yet: B3 until it is linked behind the split border, P2 until the root pointer is stored
 Private(n) == (n = 3 /\ \E t \in Threads : pc[t] \in {"s3", "s3l"}) \/ (n = 5 /\ \E t \in Threads : pc[t] \in {"n1c", "n2", "n3", "n4"})
@@ -53,7 +54,8 @@ TVerLoad == /\ Consume /\ E.e = "ver_load"
                ELSE /\ Ev(VerOf(E.n) = LVer(E))
                     /\ IF Owner(t) \/ pc[t] = "lock" \/ ~Stable(LVer(E)) THEN Stutter
                        ELSE \/ (FB(t) /\ Ev(loc[t].root = E.n)) \/ (GC3(t) /\ Ev(loc[t].child = E.n)) \/ (GC4(t) /\ Ev(loc[t].cur = E.n))
-                            \/ ((LV1(t) \/ LV2(t) \/ GFc(t) \/ RFc0(t)) /\ Ev(loc[t].b = E.n))
+                            \/ ((LV1(t) \/ LV2(t) \/ GFc(t) \/ RFc0(t) \/ SChk(t) \/ SFin(t)) /\ Ev(loc[t].b = E.n))
+                            \/ (SNv(t) /\ Ev(loc[t].nxt = E.n))
 \* the key search follows the n_keys load without a hook: the child index is known from the child load that comes next
 TNkeysLoad == /\ Consume /\ E.e = "nkeys_load"
               /\ IF Owner(E.t) THEN Stutter ELSE Ev(loc[E.t].cur = E.n) /\ GC1(E.t)
@@ -62,12 +64,16 @@ TChildLoad == /\ Consume /\ E.e = "child_load" /\ Ev(it[E.n].ch[E.i] = E.c)
 TPermLoad == /\ Consume /\ E.e = "perm_load"
              /\ IF Private(E.n) THEN Stutter
                 ELSE /\ Ev(bd[E.n].perm = E.perm)
-                     /\ IF Owner(E.t) THEN Stutter ELSE PermLd(E.t) /\ Ev(loc[E.t].b = E.n)
+                     /\ IF Owner(E.t) THEN Stutter ELSE (PermLd(E.t) \/ SPermS(E.t)) /\ Ev(loc[E.t].b = E.n)
 TLvLoad == /\ Consume /\ E.e = "lv_load"
-           /\ IF Owner(E.t) THEN Stutter ELSE Ev(bd[E.n].lv[E.slot] = E.w) /\ GVal(E.t) /\ Ev(loc[E.t].b = E.n /\ loc[E.t].idx = E.slot)
+           /\ IF Owner(E.t) THEN Stutter
+              ELSE /\ Ev(bd[E.n].lv[E.slot] = E.w /\ loc[E.t].b = E.n)
+                   /\ IF pc[E.t] = "s_chk" THEN Ev(loc[E.t].idx = E.slot) /\ Stutter      \* second load of the slot word (get_next_layer) in scan_border
+                      ELSE (GVal(E.t) /\ Ev(loc[E.t].idx = E.slot)) \/ (SVal(E.t) /\ Ev(loc[E.t].snap[loc[E.t].si] = E.slot))
 TPrevLoad == /\ Consume /\ E.e = "prev_load" /\ Ev(bd[E.n].prev = E.x)
              /\ IF pc[E.t] = "r_prev" THEN RPrev(E.t) /\ Ev(loc[E.t].b = E.n) ELSE Ev(Owner(E.t)) /\ Stutter
-TNextLoad == Consume /\ E.e = "next_load" /\ Ev(Owner(E.t)) /\ Stutter
+TNextLoad == /\ Consume /\ E.e = "next_load"
+             /\ IF Owner(E.t) THEN Stutter ELSE SNext(E.t) /\ Ev(loc[E.t].b = E.n /\ bd[E.n].next = E.x)
 TParentLoad == /\ Consume /\ E.e = "parent_load" /\ Ev(ParentOf(E.n) = E.p)
                /\ LET t == E.t IN
                   IF pc[t] = "r_lp" /\ E.n = loc[t].b THEN RLp(t)
@@ -156,11 +162,13 @@ TParentStore == /\ Consume /\ E.e = "parent_store"
 TOther == Consume /\ E.e = "other_store" /\ Ev(pc[E.t] \in {"p_slot", "smove", "sperm", "s7a", "s3", "s3l"}) /\ Stutter
 TRet == /\ Consume /\ E.e = "ret" /\ Stutter
         /\ Ev(pc[E.t] = "done" /\ Len(res[E.t]) = 1)
-        /\ LET r == res[E.t][1] IN Ev(r.st = E.st /\ (r.op = "get" => r.w = E.w))
+        /\ LET r == res[E.t][1] IN Ev(r.st = E.st /\ (r.op = "get" => r.w = E.w)
+                                       /\ (r.op = "scan" => r.w = [i \in 1..Len(E.w) |-> <<E.w[i][1], E.w[i][2]>>] /\ E.nvn >= 1))
 TEnd == Consume /\ E.e = "end" /\ Stutter /\ Ev(AllDone)
 \* silent: re-validation under the lock that goes on without a shared write
 TSilent == /\ l <= Len(Log) /\ UNCHANGED l
            /\ \E t \in Threads : \/ (pc[t] = "chk" /\ Chk(t) /\ pc'[t] \in {"r_clear", "p_set"})
+                                 \/ SEnter(t) \/ SRec(t) \/ SRet(t)
 TNext == TReset \/ TInv \/ TRootLoad \/ TVerLoad \/ TNkeysLoad \/ TChildLoad \/ TPermLoad \/ TLvLoad \/ TPrevLoad \/ TNextLoad \/ TParentLoad
          \/ TLock \/ TFlag \/ TVerStore \/ TUnlock \/ TLvStore \/ TPermStore \/ TPrevStore \/ TNextStore \/ TNkeysStore \/ TChildStore \/ TPOther
          \/ TRootLock \/ TRootUnlock \/ TRootStore \/ TParentStore \/ TOther \/ TRet \/ TEnd \/ TSilent
